@@ -666,8 +666,9 @@ func phase1(r *rng, emit func(cdoc)) {
 		}
 		if kind == "Schema" {
 			// keywords of later JSON-Schema drafts that Swagger 2.0 does not model: unknown keywords like any other, whatever they hold
-			for _, n := range []string{"contains", "propertyNames", "if", "then", "else", "const", "$defs", "dependentSchemas", "unevaluatedProperties", "examples", "$id", "$comment"} {
-				for _, v := range []string{`{"type":"string"}`, `true`, `[{"type":"string"}]`, `{"$ref":"#/definitions/x"}`} {
+			for _, n := range []string{"contains", "propertyNames", "if", "then", "else", "const", "$defs", "dependentSchemas", "unevaluatedProperties", "examples", "$id", "$comment",
+				"deprecated", "writeOnly", "contentEncoding", "contentMediaType", "minContains", "dependentRequired", "prefixItems", "$anchor"} {
+				for _, v := range []string{`{"type":"string"}`, `true`, `[{"type":"string"}]`, `{"$ref":"#/definitions/x"}`, `"text"`, `7`} {
 					emit(cdoc{kind: kind, doc: withMember(base, n, mustJV(v)), nf: true, phase: 1, tags: []string{"phase1", "single", "unknown-kw", "later-draft-keyword"}})
 				}
 			}
